@@ -360,6 +360,59 @@ def run_invalid(acc, clastic, shard, nshards):
                           % (p, why, via), case)
 
 
+PROVIDE_PATTERNS = [('/items/<page:int>', '/items/7', 7), ('/t/<page*>', '/t/a/b', ['a', 'b']), ('/t/<page*>', '/t', []),
+                    ('/o/<page?int>/x', '/o/x', None), ('/s/<page>', '/s/v', 'v'), ('/f/<page+float>', '/f/1.5/2', [1.5, 2.0])]
+
+
+def run_provides(acc):
+    """What a handler receives for a binding is the converted path segment - also when a middleware in front of it
+    provides a value under the binding's name (in any of its three phases): such a stack is refused when it is
+    constructed (README, 'Naming conflicts'); if it were accepted the path would still have to win."""
+    from clastic import Application, Middleware, Route
+    from werkzeug.wrappers import Response
+    got = []
+
+    def handler(page):
+        got.append(page)
+        return Response('ok')
+    for pattern, path, want in PROVIDE_PATTERNS:
+        for phase in ('request', 'endpoint', 'render', 'none'):
+            for level in ('app', 'route'):
+                acc.evaluated += 1
+                acc.transitions += 1
+                acc.validated += 1
+                case = {'kind': 'provides', 'pattern': pattern, 'phase': phase, 'level': level}
+                ns = {'Middleware': Middleware}
+                if phase == 'none':
+                    mws = []
+                else:
+                    exec('class P(Middleware):\n    %s = ("page",)\n    def %s(self, next%s):\n        return next(page="FROM-MIDDLEWARE")\n'
+                         % ({'request': 'provides', 'endpoint': 'endpoint_provides', 'render': 'render_provides'}[phase], phase,
+                            ', context' if phase == 'render' else ''), ns)
+                    mws = [ns['P']()]
+                try:
+                    app = Application([Route(pattern, handler, middlewares=mws if level == 'route' else [])],
+                                      middlewares=mws if level == 'app' else [])
+                except NameError:
+                    acc.outcome('provides:refused')
+                    if phase == 'none':
+                        acc.violation('C05:provides:plain-route-refused', 'route %r without any middleware refused' % pattern, case)
+                    continue
+                except Exception as e:
+                    acc.violation('C05:provides:construct-%s' % type(e).__name__, 'route %r behind a middleware providing its binding in the %s '
+                                  'phase: construction raised %r' % (pattern, phase, e), case)
+                    continue
+                del got[:]
+                st = []
+                b''.join(app(_environ(path), lambda s, h, e=None: st.append(s)))
+                acc.outcome('provides:accepted')
+                if phase == 'render':
+                    continue      # a render-phase value never reaches the handler
+                if not st or st[0][:3] != '200' or got != [want] or (got and type(got[0]) is not type(want)):
+                    acc.violation('C05:provides:handler-value:%s' % phase, 'route %r behind a middleware whose %s phase provides `page`: the '
+                                  'stack was accepted and the handler received %r for %r, the path says %r' % (pattern, phase, got, path, want), case)
+
+
 INVALID_VIAS = ('cline-decorator', 'cline-get', 'tuple', 'add-tuple', 'GET', 'POST-add')
 
 
@@ -506,6 +559,8 @@ def shard(tier, i, n, seed):
         paths = mkpaths()
         run_match_layer(acc, clastic, name, pats, paths, i, n)
     run_invalid(acc, clastic, i, n)
+    if i == 3 % n:
+        run_provides(acc)
     run_e2e(acc, clastic, i, n, 2, 2 if tier == 'quick' else 3)
     return acc
 
@@ -515,6 +570,7 @@ def space_size(tier):
     for name, kinds, lo, hi, mkpaths in layers(tier):
         total += len(layer_patterns(kinds, lo, hi)) * len(MODES) * len(mkpaths())
     total += len(invalid_patterns()) * (len(MODES) + len(INVALID_VIAS))
+    total += len(PROVIDE_PATTERNS) * 4 * 2
     total += len(layer_patterns(P2_KINDS, 0, 2)) * 7 * len(seg_paths(2 if tier == 'quick' else 3))
     return total
 
@@ -554,6 +610,17 @@ def replay(case):
             _build(clastic, case['pattern'], case['mode'])
         except Exception as e:
             acc.violation('x', repr(e), case)
+    elif case['kind'] == 'invalid-via':
+        try:
+            _construct_via(case['via'], case['pattern'])
+            acc.violation('x', 'accepted', case)
+        except InvalidPattern:
+            pass
+        except Exception as e:
+            acc.violation('x', repr(e), case)
+    elif case['kind'] == 'provides':
+        run_provides(acc)
+        acc.violations[:] = [v for v in acc.violations if v['case'] == case]
     elif case['kind'] == 'invalid':
         try:
             Route(case['pattern'], _noop, slash_mode=case['mode'])
